@@ -1057,6 +1057,150 @@ class C08(SimpleSpec):
         return out
 
 
+
+def canon_agg(text):
+    e = vetlib.parse_sexp(text)
+    body = e[1]
+    if body[0] == "err":
+        return {"err": sorted(set(json.dumps(x) for x in body[1:]))}
+    out = {}
+    for sec in body[1:]:
+        if sec[0] == "criteria":
+            out["criteria"] = sorted(json.dumps(x) for x in sec[1:])
+        else:
+            out[sec[0]] = sorted([p[1]] + sorted(json.dumps(x) for x in p[2:]) for p in sec[1:] if len(p) > 2)
+    return out
+
+
+class C16(SimpleSpec):
+    pid = "C16"
+    model_imports = ["Base", "Extracted", "Show", "Imports", "Aggregate", "ShowAggregate"]
+    coq_files = ["Properties/C16.v"]
+    theorems = ["C16_audits_are_the_tagged_union", "C16_wildcards_are_the_tagged_union", "C16_nothing_non_importable",
+                "C16_provenance_tag", "C16_definition_conflict_iff", "C16_errors_persist"]
+    level_text = ("Theorems about the model of do_aggregate_audits for every finite list of sources: per crate the output audits are "
+                  "exactly the importable audits of the sources in source order, each with the source appended to its aggregated-from "
+                  "chain (likewise wildcard audits / trusted entries), nothing non-importable gets in; merging a further definition of "
+                  "a criterion raises an error exactly when it differs from the first in description, description-url or written "
+                  "implies, and errors persist (no output on error). PARTIAL: 'importing the aggregate gives the same verdict as "
+                  "importing every source' and 'the output is a loadable audits file' are exercised on the implementation (two-stage "
+                  "metamorphic run through mock_online + resolve; re-parse of the written TOML), not proved.")
+    level_note = ("Entries are opaque ids in the model (content is carried through unchanged by the code); the same routine serves "
+                  "multi-URL imports (C07_multi_url_is_union).")
+    design_ref = "DESIGN.md §4 C16"
+    rule = ("1-4 generated source audit files over a shared graph: overlapping crates, shared criteria defined identically or (25%) "
+            "differently in description / description-url / implies, own criteria, non-importable entries, existing aggregated-from "
+            "chains, wildcard audits and trusted tables; a local project with a criteria-map to evaluate verdict equivalence; "
+            "non-trivial = at least two sources with an overlapping crate or criterion")
+    projection_doc = "error list (criterion, kind) or the merged file: criteria with provenance, per-crate entries identified by source entry with their aggregated-from chains"
+    assumptions = ["source files are parsed by cargo-vet's own tolerant parser before aggregation (as cmd_aggregate does)"]
+    quick_n = 100
+
+    def model_modules_paths(self):
+        return ["ShowAggregate"]
+
+    def gen_cases(self, rng, n):
+        return [gen.gen_aggregate_case(rng, f"g{i}") for i in range(n)]
+
+    def model_expr(self, o):
+        return f"sagg (aggregate {coq(o['model_input']['sources'])})"
+
+    def canon(self, text):
+        return canon_agg(text)
+
+    def nontrivial(self, case, o, c):
+        return len(case.get("sources", [])) >= 2
+
+    def tag(self, case, o, c):
+        return "err" if "err" in c else "ok:%d" % len(case.get("sources", []))
+
+    def describe(self, case, o):
+        return {"id": case["id"], "sources": [{"url": s["url"], "text": s["text"][:400]} for s in case["sources"][:2]],
+                "observation": o["obs"][:400]}
+
+    def oracle(self, case, o, c):
+        out = []
+        structs = case.get("sources_struct")
+        if not structs:
+            return out
+        # fails exactly when two sources define a criterion differently
+        defs = {}
+        differ = False
+        for s in case["sources"]:
+            for nm, d in structs[s["url"]].get("criteria", {}).items():
+                key = (d.get("description"), d.get("description-url"), tuple(d.get("implies", [])))
+                if nm in defs and defs[nm] != key:
+                    differ = True
+                defs.setdefault(nm, key)
+        if differ != ("err" in c):
+            out.append(f"aggregation {'failed' if 'err' in c else 'succeeded'} although the sources "
+                       f"{'agree on' if not differ else 'disagree about'} every shared criterion")
+        if "err" not in c:
+            # every importable entry of every source, tagged, and nothing else
+            exp = sum(1 for s in case["sources"] for l in structs[s["url"]].get("audits", {}).values()
+                      for a in l if a.get("importable") is not False)
+            got = sum(len(p) - 1 for p in c.get("audits", []))
+            if exp != got:
+                out.append(f"the aggregate holds {got} audits, the sources have {exp} importable ones")
+            ex = o.get("extra", {})
+            if not ex.get("reloads") or not ex.get("reloads_strict"):
+                out.append("the aggregated file does not load back as the same audits file")
+        return out
+
+    def run(self, rng, tier, work, model_ok=True, ncases=None, replay=None):
+        res = super().run(rng, tier, work, model_ok, ncases, replay)
+        # stage 2: verdict of "import the aggregate" vs "import every source separately"
+        cases = []
+        n = ncases or (self.quick_n if tier == "quick" else self.thorough_n)
+        rng2 = __import__("random").Random(rng.random())
+        base = self.gen_cases(rng2, max(10, n // 2))
+        base = [gen.strip_struct(b) | {"_full": b} for b in base]
+        obs1 = vetlib.run_harness([{k: v for k, v in b.items() if k != "_full"} for b in base], os.path.join(work, "impl2a"))
+        pairs = []
+        for b in base:
+            o = obs1[b["id"]]
+            if o["status"] != "ok" or "text" not in o.get("extra", {}):
+                continue
+            full = b["_full"]
+            urls = [s["url"] for s in full["sources"]]
+            for variant in ("agg", "sep", "multi"):
+                st = __import__("copy").deepcopy(full["local_struct"])
+                peers = {s["url"]: s["text"] for s in full["sources"]}
+                if variant == "agg":
+                    st["imports"] = {"imp": {"url": ["https://agg.example/audits.toml"], "criteria-map": full["cmap"]}}
+                    peers["https://agg.example/audits.toml"] = o["extra"]["text"]
+                elif variant == "sep":
+                    st["imports"] = {f"imp{k}": {"url": [u], "criteria-map": full["cmap"]} for k, u in enumerate(urls)}
+                else:
+                    st["imports"] = {"imp": {"url": urls, "criteria-map": full["cmap"]}}
+                for imp in st["imports"].values():
+                    if not imp["criteria-map"]:
+                        del imp["criteria-map"]
+                cases.append({"id": f"{b['id']}-{variant}", "kind": "resolve", "graph": full["graph"], "mode": "unlocked",
+                              "store": vetlib.render_store(st), "peers": peers, "registry": full["registry"],
+                              "allow_criteria_changes": True})
+            pairs.append(b["id"])
+        obs2 = vetlib.run_harness(cases, os.path.join(work, "impl2b")) if cases else {}
+        checked = 0
+        for pid_ in pairs:
+            vs = {}
+            for variant in ("agg", "sep", "multi"):
+                o = obs2.get(f"{pid_}-{variant}")
+                if not o or o["status"] != "ok":
+                    vs[variant] = (o or {}).get("status"), (o or {}).get("error_kind")
+                    continue
+                r = O.Report(o["obs"])
+                nodes = o["tables"]["nodes"]
+                vs[variant] = (r.kind, tuple(sorted((nodes[i], f) for i, f in r.failures().items())), len(r.conflicts()))
+            checked += 1
+            if len(set(vs.values())) != 1:
+                case = [c for c in cases if c["id"] == f"{pid_}-agg"][0]
+                res["oracle_failures"].append({"id": f"{pid_}-equiv", "what": f"importing the aggregate, every source separately, and one multi-URL import give different verdicts: {vs}",
+                                               "finding": None, "case": case})
+        res["stats"]["equivalence_triples_checked"] = checked
+        return res
+
+
 import hist  # noqa: E402
 
 
@@ -1178,7 +1322,7 @@ class C13(HistorySpec):
     assumptions = C09.assumptions
 
 
-REGISTRY = {c.pid: c for c in [C01, C02, C04, C05, C06, C07, C08, C09, C10, C11, C12, C13]}
+REGISTRY = {c.pid: c for c in [C01, C02, C04, C05, C06, C07, C08, C09, C10, C11, C12, C13, C16]}
 
 
 def get(pid):
